@@ -94,6 +94,7 @@ func (p *Performance) UnmarshalDocument(doc *birch.Document) error {
 		case "ts":
 			p.Timestamp = elem.Value().Time()
 		case "id":
+			p.ID = elem.Value().Int64()
 		case "counters":
 			if err := p.Counters.UnmarshalDocument(elem.Value().MutableDocument()); err != nil {
 				return errors.WithStack(err)
@@ -119,7 +120,7 @@ func (p *PerformanceCounters) UnmarshalDocument(doc *birch.Document) error {
 		switch elem.Key() {
 		case "n":
 			p.Number = elem.Value().Int64()
-		case "opts":
+		case "ops":
 			p.Operations = elem.Value().Int64()
 		case "size":
 			p.Size = elem.Value().Int64()
